@@ -13,6 +13,7 @@ import (
 	"fmt"
 	"time"
 
+	ledger "github.com/formancehq/ledger/internal"
 	ledgercontroller "github.com/formancehq/ledger/internal/controller/ledger"
 	"github.com/formancehq/ledger/verifh/lx"
 	"github.com/formancehq/ledger/verifh/pgsim"
@@ -38,9 +39,77 @@ type History struct {
 // the points in time the checks use.
 type Built struct {
 	H    *History
+	Cfg  *FeatCfg // feature configuration of the ledger (nil: the default feature set)
+	info ledger.Ledger
 	DB   *pgsim.DB
 	Ref  *lx.Ref
 	PITs []time.Time // interesting instants, most discriminating first
+}
+
+// FeatCfg is a ledger feature configuration, restricted to what matters to the meaning
+// of a query: whether the metadata of accounts / of transactions is historised. A point
+// in time query reads the metadata as of that instant when the resource's own history
+// feature is SYNC and the current metadata when it is DISABLED (the rule property C17
+// checks on unfiltered listings, see lx/pit.go).
+type FeatCfg struct {
+	Name     string            `json:"name"`
+	Features map[string]string `json:"features"`
+}
+
+func (c *FeatCfg) on(feature string) bool {
+	if c == nil {
+		return true
+	}
+	v, ok := c.Features[feature]
+	return !ok || v == "SYNC"
+}
+
+// AccHist / TxHist: is the metadata history of accounts / transactions kept?
+func (c *FeatCfg) AccHist() bool { return c.on("ACCOUNT_METADATA_HISTORY") }
+func (c *FeatCfg) TxHist() bool  { return c.on("TRANSACTION_METADATA_HISTORY") }
+
+func (c *FeatCfg) features() map[string]string {
+	if c == nil {
+		return nil
+	}
+	return c.Features
+}
+
+// Label names the configuration in signatures and evidence ("" for the default set).
+func (c *FeatCfg) Label() string {
+	if c == nil {
+		return ""
+	}
+	return c.Name
+}
+
+func onOff(b bool) string {
+	if b {
+		return "SYNC"
+	}
+	return "DISABLED"
+}
+
+func metaHistCfg(acc, tx bool) *FeatCfg {
+	return &FeatCfg{
+		Name:     "acc-meta-history=" + onOff(acc) + ",tx-meta-history=" + onOff(tx),
+		Features: map[string]string{"ACCOUNT_METADATA_HISTORY": onOff(acc), "TRANSACTION_METADATA_HISTORY": onOff(tx)},
+	}
+}
+
+// Label identifies the built history (history name, and the feature configuration when
+// it is not the default one).
+func (b *Built) Label() string {
+	if b.Cfg == nil {
+		return b.H.Name
+	}
+	return b.H.Name + "@" + b.Cfg.Name
+}
+
+// under decorates a variant with the metadata sources of the ledger's configuration.
+func (b *Built) under(v variant) variant {
+	v.accCur, v.txCur = !b.Cfg.AccHist(), !b.Cfg.TxHist()
+	return v
 }
 
 func p(src, dst, asset, amt string) lx.P { return lx.P{Src: src, Dst: dst, Ast: asset, Amt: amt} }
@@ -110,7 +179,17 @@ func histories() []*History {
 
 // build executes every history on a clone of one booted database.
 func build(ctx context.Context, hs []*History) ([]*Built, error) {
-	boot, err := lx.Boot(ctx, []lx.LedgerSpec{{Name: ledgerName}})
+	return buildCfg(ctx, hs, nil)
+}
+
+// buildCfg executes every history on a ledger created with the given feature
+// configuration (nil: the default feature set).
+func buildCfg(ctx context.Context, hs []*History, cfg *FeatCfg) ([]*Built, error) {
+	spec := lx.LedgerSpec{Name: ledgerName}
+	if cfg != nil {
+		spec.Features = cfg.Features
+	}
+	boot, err := lx.Boot(ctx, []lx.LedgerSpec{spec})
 	if err != nil {
 		return nil, err
 	}
@@ -119,6 +198,13 @@ func build(ctx context.Context, hs []*History) ([]*Built, error) {
 		b, err := buildOne(ctx, boot, h)
 		if err != nil {
 			return nil, fmt.Errorf("history %s: %w", h.Name, err)
+		}
+		b.Cfg = cfg
+		if cfg != nil {
+			f := lx.FeatOf(b.info)
+			if f.AccMetaHistory != cfg.AccHist() || f.TxMetaHistory != cfg.TxHist() {
+				return nil, fmt.Errorf("history %s: ledger features %v do not reflect configuration %s", h.Name, b.info.Features, cfg.Name)
+			}
 		}
 		out = append(out, b)
 	}
@@ -143,7 +229,7 @@ func buildOne(ctx context.Context, boot *pgsim.DB, h *History) (*Built, error) {
 			return nil, fmt.Errorf("op %d (%s): reference: %v", i, op, err)
 		}
 	}
-	b := &Built{H: h, DB: pg, Ref: ref}
+	b := &Built{H: h, DB: pg, Ref: ref, info: ctrl.Info()}
 	// Points in time: (1) an instant that coincides exactly with explicit timestamps
 	// (boundary of "<="), (2) the timestamp of the first "now" transaction (before the
 	// later metadata edits and most writes), (3) the timestamp of the last "now"
